@@ -664,7 +664,20 @@ func CheckC15(env *core.Env, rep *core.Report) *core.Result {
 		for name, body := range files {
 			_ = ioutil.WriteFile(filepath.Join(dd, name), []byte(body), 0o644)
 		}
-		for k, start := range []string{"a1.toml", "a2.toml", "a3.toml", "a4.toml", "a5.yaml", "a6.toml", "a7.toml"} {
+		// the same top-level variable a list (a mapping) on both sides of an import, in every format
+		files2 := map[string]string{
+			"l1.yaml": "import: [\"l2.yaml\"]\nvariables:\n  x: [1, 2]\n  m: {a: \"1\"}\ntasks:\n  entry:\n    command: [\"true\"]\n",
+			"l2.yaml": "variables:\n  x: [3]\n  m: {b: \"2\"}\n",
+			"l3.json": `{"import": ["l4.json", "l2.yaml"], "variables": {"x": [1], "m": {"a": "1"}}, "tasks": {"entry": {"command": ["true"]}}}`,
+			"l4.json": `{"variables": {"x": [2, 3], "m": {"c": "3"}}}`,
+			"l5.toml": "import = [\"l6.toml\"]\n[variables]\nx = [1, 2]\n[variables.m]\na = \"1\"\n[tasks.entry]\ncommand = [\"true\"]\n",
+			"l6.toml": "[variables]\nx = [3]\n[variables.m]\nb = \"2\"\n",
+		}
+		for name, body := range files2 {
+			_ = ioutil.WriteFile(filepath.Join(dd, name), []byte(body), 0o644)
+			files[name] = body
+		}
+		for k, start := range []string{"a1.toml", "a2.toml", "a3.toml", "a4.toml", "a5.yaml", "a6.toml", "a7.toml", "l1.yaml", "l3.json", "l5.toml"} {
 			f := filepath.Join(dd, start)
 			for _, args := range [][]string{{"-c", f, "list"}, {"-c", f, "show", "entry"}, {"-c", f, "validate", f}} {
 				res := e.run(dd, "", 10*time.Second, args...)
